@@ -176,7 +176,8 @@ def oracle(inp, status, out_gates, out_circ, dense_max):
 
 def check_measurement(inp):
     """model-free: a measurement after a routed gate must come out as that measurement."""
-    from qutip_qip.circuit import QubitCircuit, Measurement
+    from qutip_qip.circuit import QubitCircuit
+    from qutip_qip.operations import Measurement
     from qutip_qip.transpiler.chain import to_chain_structure
     qc = QubitCircuit(inp["N"], num_cbits=1)
     for name, targets, controls, k in inp["gates"]:
